@@ -194,6 +194,12 @@ def run(prog, chk):
                     return r
                 if x.get('k') == 'ref' and x.get('id') in alias:
                     return p0 if alias[x['id']] == 'p0' else p1
+                if x.get('k') == 'ref' and helper is None:
+                    # a local computed from the weights before the draw (`double total = p0 + p1;`)
+                    dv = [v for v in doubles if v['id'] == x.get('id') and v['id'] not in (p0_id[0], p1_id[0]) and SX.is_node(v.get('init'))]
+                    if len(dv) == 1 and not any(SX.is_node(SX.strip(w_[0])) and SX.strip(w_[0]).get('id') == dv[0]['id']
+                                                for w_ in (SX.write_target(n_) for n_ in SX.walk(rs.body)) if w_):
+                        return conv(dv[0]['init'])
                 if x.get('k') == 'bin' and x['op'] in ('+', '-', '*', '/'):
                     a, b = conv(x['l']), conv(x['r'])
                     return {'+': a + b, '-': a - b, '*': a * b, '/': a / b}[x['op']]
@@ -232,7 +238,19 @@ def run(prog, chk):
                             argv.append(v0 if alias.get(prm['id']) == 'p0' else (v1 if alias.get(prm['id']) == 'p1' else 'GEN'))
                         got = it_.call_fn(H, argv)
                     else:
-                        got = it_.expr(one_decl['init'], {p0_id[0]: v0, p1_id[0]: v1, dist_id: 'DIST'})
+                        env_ = {p0_id[0]: v0, p1_id[0]: v1, dist_id: 'DIST'}
+                        stop_ = False
+                        for s_ in stmts:
+                            if stop_:
+                                break
+                            if s_['k'] == 'decls':
+                                for v_ in s_['d']:
+                                    if v_ is one_decl:
+                                        stop_ = True
+                                        break
+                                    if v_ in doubles and v_['id'] not in env_ and SX.is_node(v_.get('init')):
+                                        env_[v_['id']] = it_.expr(v_['init'], env_)
+                        got = it_.expr(one_decl['init'], env_)
                 except Unsupported as e:
                     raise AnalysisBroken('reset outcome formula: %s' % e)
                 want = True if z0 else (False if z1 else c)
@@ -246,13 +264,12 @@ def run(prog, chk):
         it = KP.PairIter(amp, None, bit_ids, scal, {one_decl['id']: one})
         try:
             it.b = 0
-            seen_one = False
             for s in stmts:
                 if s['k'] == 'decls':
                     for v in s['d']:
-                        if v is one_decl:
-                            seen_one = True
-                        elif seen_one and v['type'] == 'double':
+                        vt = v['type'][6:] if v['type'].startswith('const ') else v['type']
+                        # scalars derived from the weights and the outcome, in declaration order (before or after the draw)
+                        if v is not one_decl and vt == 'double' and v['id'] not in scal and SX.is_node(v.get('init')) and SX.strip(v['init']).get('k') not in ('float', 'int'):
                             it.scalars[v['id']] = it.amp_expr(v['init'])
             fin = KP.sweep_final(it, l2)
         except KP.OutsidePair as e:
